@@ -139,6 +139,53 @@ def gen_c15(rng, n, thorough=False):
     return scs
 
 
+def hostile_header(rng):
+    """bytes whose first MBAP header is malformed (foreign protocol id, or a length of 0 / beyond 254), with a random tail"""
+    tx = [rng.randrange(256), rng.randrange(256)]
+    if rng.random() < 0.5:
+        head = tx + [rng.randrange(1, 256) if rng.random() < 0.5 else 0, rng.randrange(1, 256)] + [rng.randrange(256), rng.randrange(256)]
+        if head[2] == 0 and head[3] == 0:
+            head[3] = 1
+    else:
+        ln = rng.choice([0, 255, 256, 300, 4096, 65535, rng.randrange(255, 65536)])
+        head = tx + [0, 0, ln >> 8, ln & 255]
+    return head + [rng.randrange(256) for _ in range(rng.choice([1, 2, 6, 30, 300, 1200]))]
+
+
+def gen_c07_isolation(rng, n, thorough=False):
+    """hostile bytes on one session of a real server task (TCP and TLS): that session ends, every other session, new
+    connections, level changes and the final shutdown are served as if nothing had happened"""
+    scs = []
+    ok = {"cert": "client_operator", "versions": ["1.2", "1.3"]}
+    for k in range(n):
+        variant = rng.choice(["tcp", "tcp", "tls", "tls_authz"]) if thorough or k % 3 == 0 else "tcp"
+        tls = ok if variant != "tcp" else None
+        victims = rng.randint(1, 3)
+        others = rng.randint(1, 2)
+        total = victims + others
+        steps = [conn(c, rng.choice(SRCS4) if not tls else "127.0.0.1", tls=tls) for c in range(total)]
+        for c in range(victims, total):
+            steps.append(rand_req(rng, c, (1, 2)))
+        order = list(range(victims))
+        rng.shuffle(order)
+        for c in order:
+            if rng.random() < 0.3:
+                steps.append(rand_req(rng, c, (1, 2)))
+            steps.append({"op": "send", "c": c, "bytes": hostile_header(rng)})
+            if rng.random() < 0.4:
+                steps.append({"op": "decode", "level": [rng.randrange(4), rng.randrange(3), rng.randrange(3)]})
+            steps.append(rand_req(rng, rng.randrange(victims, total), (1, 2)))
+        steps.append(conn(total, "127.0.0.1", tls=tls))
+        steps.append(req(total, req_read(3, 0, 2), 1))
+        for c in range(victims, total):
+            steps.append(req(c, req_read(3, 0, 2), 1))
+        steps.append({"op": rng.choice(["shutdown", "drop"])})
+        steps.append(conn(total + 1))
+        scs.append(scenario(k, steps, variant=variant, max_sessions=total + 2, auth="allow" if variant == "tls_authz" else None,
+                            tag=f"c07-hostile-bytes-on-{victims}-of-{total}-sessions-{variant}"))
+    return scs
+
+
 def gen_c15_tls(rng):
     """TLS servers: sessions that stall in the handshake occupy a slot; eviction and shutdown must close them too"""
     scs = []
